@@ -16,22 +16,24 @@ Definition C13_full_statement : Prop := conc_full_statement.
     cache is keyed by the reference only: a thread may find a value another thread loaded as another type, or
     an error of any kind another load left there (an object that does not exist, a wrong type, a parse error,
     a "Recursive reference"), published before or while it waited: it is answered as alone all the same. *)
-Theorem C13_per_thread_chain : forall c prog rank,
-  per_thread c = true -> acyclic prog rank -> conc_statement c prog (D prog rank).
+Theorem C13_per_thread_chain : forall c prog cells rank,
+  per_thread c = true -> acyclic prog rank -> conc_statement c prog cells (lazy_seq cells (D prog rank)).
 Proof. exact conc_per_thread_chain. Qed.
 Print Assumptions C13_per_thread_chain.
 
 (** ... also after letting the remaining threads run (the harness' completion phase) *)
-Theorem C13_completion : forall c prog rank progs sched fuel,
+Theorem C13_completion : forall c prog cells rank progs sched fuel,
   per_thread c = true -> acyclic prog rank ->
-  state_ok c (D prog rank) progs (complete c prog fuel (length progs) (run_sched c prog (ginit progs) sched)).
+  state_ok c (lazy_seq cells (D prog rank)) progs
+           (complete c prog cells fuel (length progs) (run_sched c prog cells (ginit cells progs) sched)).
 Proof. exact conc_per_thread_complete. Qed.
 Print Assumptions C13_completion.
 
 (** ... and every run ends with all threads finished *)
-Theorem C13_terminates : forall c prog rank progs sched,
+Theorem C13_terminates : forall c prog cells rank progs sched,
   per_thread c = true -> acyclic prog rank ->
-  exists fuel, all_finished (complete c prog fuel (length progs) (run_sched c prog (ginit progs) sched)) (length progs) = true.
+  exists fuel, all_finished (complete c prog cells fuel (length progs)
+                                      (run_sched c prog cells (ginit cells progs) sched)) (length progs) = true.
 Proof. exact conc_terminates. Qed.
 Print Assumptions C13_terminates.
 
@@ -49,15 +51,29 @@ Proof. exact D_is_sequential_answer. Qed.
 Print Assumptions C13_sequential_answer.
 
 (** the property as worded: every call of every thread returns what it returns when it runs alone *)
-Theorem C13_answers_alone : forall c prog rank progs sched fuel t,
+Theorem C13_answers_alone : forall c prog cells rank progs sched fuel t,
   per_thread c = true -> acyclic prog rank ->
-  (forall cl, In cl (nth t progs []) -> (rank (snd cl) < fuel)%nat) ->
-  let g := run_sched c prog (ginit progs) sched in
-  let alone := fun cl : tcall => fst (get no_cache prog fuel [] (fst cl) (snd cl) init) in
+  (forall cl, In cl (nth t progs []) -> (rank (item_ref cells cl) < fuel)%nat) ->
+  let g := run_sched c prog cells (ginit cells progs) sched in
+  let alone := call_ans (lazy_seq cells (fun ty r => fst (get no_cache prog fuel [] ty r init))) in
   (exists k, results (threads g t) = map alone (firstn k (nth t progs []))) /\
   (finished g t = true -> results (threads g t) = map alone (nth t progs [])).
 Proof. exact conc_answers_alone. Qed.
 Print Assumptions C13_answers_alone.
+
+(** the lazily loaded references (object/mod.rs Lazy<T>::load, a once-cell shared by all threads): under every
+    schedule a value published into a cell is the sequential answer of the reference the cell holds, and the cell
+    is never written again — concurrent initialisers are serialised, exactly one publishes, later loads clone.
+    That nobody panics and everybody returns what it returns alone is C13_per_thread_chain / C13_answers_alone
+    (program items (LAZY, i)); that a thread waiting for a cell is not a deadlock is part of [state_ok] *)
+Theorem C13_cell_once : forall c prog cells rank progs sched1 sched2 i o,
+  per_thread c = true -> acyclic prog rank ->
+  let g1 := run_sched c prog cells (ginit cells progs) sched1 in
+  cellst g1 i = CFull o ->
+  o = D prog rank (fst (cells i)) (snd (cells i)) /\
+  cellst (run_sched c prog cells g1 sched2) i = CFull o.
+Proof. exact conc_cell_once. Qed.
+Print Assumptions C13_cell_once.
 
 Theorem C13_full_refuted : ~ C13_full_statement.
 Proof. exact conc_full_refuted. Qed.
@@ -66,7 +82,7 @@ Print Assumptions C13_full_refuted.
 (** C13-a (fixed): one guard stack per resolver shared by all threads — spurious "Recursive reference" *)
 Theorem C13_refuted_shared_chain : exists prog progs sched,
   let c := mkCcfg true false false in
-  let g := complete c prog 100 (length progs) (run_sched c prog (ginit progs) sched) in
+  let g := complete c prog no_cells 100 (length progs) (run_sched c prog no_cells (ginit no_cells progs) sched) in
   results (threads g 1%nat) = [Err E_OTHER] /\
   (forall fuel, fst (get no_cache prog (S fuel) [] 0 1 init) = Ok 5).
 Proof. exact conc_refuted_shared_chain. Qed.
@@ -75,7 +91,7 @@ Print Assumptions C13_refuted_shared_chain.
 (** C13-a: assert_eq! in the drop guard fails, the mutex is poisoned, the other thread panics too *)
 Theorem C13_refuted_pop_assert : exists prog progs sched,
   let c := mkCcfg true false false in
-  let g := complete c prog 100 (length progs) (run_sched c prog (ginit progs) sched) in
+  let g := complete c prog no_cells 100 (length progs) (run_sched c prog no_cells (ginit no_cells progs) sched) in
   poisoned g 0 = true /\ results (threads g 0%nat) = [Panic 1] /\ results (threads g 1%nat) = [Panic 1].
 Proof. exact conc_refuted_pop_assert. Qed.
 Print Assumptions C13_refuted_pop_assert.
@@ -83,14 +99,14 @@ Print Assumptions C13_refuted_pop_assert.
 (** C13-a: the failing pop in a nested load: second panic while unwinding = process abort *)
 Theorem C13_refuted_abort : exists prog progs sched,
   let c := mkCcfg true false false in
-  aborted (complete c prog 100 (length progs) (run_sched c prog (ginit progs) sched)) = true.
+  aborted (complete c prog no_cells 100 (length progs) (run_sched c prog no_cells (ginit no_cells progs) sched)) = true.
 Proof. exact conc_refuted_abort. Qed.
 Print Assumptions C13_refuted_abort.
 
 (** C13-b (open): objects that eagerly load each other, cache on: mutual wait on InProcess — with the fixed guard too *)
 Theorem C13_cyclic_deadlock : exists prog progs sched,
   let c := mkCcfg true true true in
-  deadlocked c (complete c prog 100 (length progs) (run_sched c prog (ginit progs) sched)) (length progs) = true.
+  deadlocked c (complete c prog no_cells 100 (length progs) (run_sched c prog no_cells (ginit no_cells progs) sched)) (length progs) = true.
 Proof. exact conc_cyclic_deadlock. Qed.
 Print Assumptions C13_cyclic_deadlock.
 
@@ -101,7 +117,7 @@ Theorem C13_serving_cached_errors_refuted : forall k : N, In k error_kinds ->
   let serve := fun e : N => e =? k in
   let prog := kind_prog k in
   let c := mkCcfg true true true in
-  let g := fold_left (step_gen c prog serve) [0; 0; 1; 1; 0; 0; 0; 1; 1; 1; 1; 1]%nat (ginit [[(1, 3)]; [(2, 3)]]) in
+  let g := fold_left (step_gen c prog no_cells serve) [0; 0; 1; 1; 0; 0; 0; 1; 1; 1; 1; 1]%nat (ginit no_cells [[(1, 3)]; [(2, 3)]]) in
   acyclic prog (fun _ => O) /\ finished g 1%nat = true /\
   results (threads g 1%nat) = [Err k] /\ fst (get no_cache prog 2 [] 2 3 init) = Ok 7.
 Proof. exact conc_serving_cached_errors_refuted. Qed.
@@ -111,7 +127,8 @@ Theorem C13_chain_table : cache_chain_per_thread = true.
 Proof. exact chain_table. Qed.
 Print Assumptions C13_chain_table.
 
-(** non-vacuity: an acyclic document in which object 2 loaded eagerly (type 0) follows a reference to object 3,
+(** non-vacuity (cells 0 and 2 are published once, cell 1 — whose load fails — stays empty and is tried again by
+    every thread that loads it): an acyclic document in which object 2 loaded eagerly (type 0) follows a reference to object 3,
     which does not exist, and fails with the missing-object error, while the same object loaded lazily (type 1)
     succeeds; object 4 fails as type 0 with a parse error and succeeds as type 2.  Two threads sharing the
     resolver and the cache load the same references as different types, interleaved step by step: the error
@@ -123,16 +140,21 @@ Definition ex_prog (ty : tytag) (r : ref) : comp :=
   else if r =? 4 then (if ty =? 0 then Ret (Err 11) else Ret (Ok 9))
   else Ret (Ok 5).
 Definition ex_rank (r : ref) : nat := if r =? 2 then 1%nat else 0%nat.
+Definition ex_cells (i : N) : tcall := if i =? 0 then (1, 2) else if i =? 1 then (0, 2) else (2, 4).
 Example C13_nonvacuous :
   acyclic ex_prog ex_rank /\
   let c := mkCcfg true true true in
-  let g := complete c ex_prog 200 2
-             (run_sched c ex_prog (ginit [[(0, 2); (1, 2); (2, 4)]; [(1, 2); (0, 2); (0, 4); (0, 1)]])
-                        [0; 1; 0; 1; 0; 1; 0; 1; 1; 0; 0; 1; 1; 0]%nat) in
-  map results (map (threads g) [0; 1]%nat) = [[Err 3; Ok 7; Ok 9]; [Ok 7; Err 3; Err 11; Ok 5]] /\
-  all_finished g 2 = true.
+  let progs := [[(0, 2); (LAZY, 0); (1, 2); (LAZY, 1); (2, 4)]; [(LAZY, 0); (1, 2); (LAZY, 1); (0, 2); (LAZY, 2); (0, 4); (0, 1)];
+                [(LAZY, 1); (LAZY, 0); (LAZY, 2)]] in
+  let g := complete c ex_prog ex_cells 300 3
+             (run_sched c ex_prog ex_cells (ginit ex_cells progs)
+                        [0; 1; 0; 1; 2; 0; 1; 0; 2; 1; 1; 0; 0; 2; 1; 1; 0; 2; 2; 1; 0; 1; 0; 2]%nat) in
+  map results (map (threads g) [0; 1; 2]%nat)
+  = [[Err 3; Ok 7; Ok 7; Err 3; Ok 9]; [Ok 7; Ok 7; Err 3; Err 3; Ok 9; Err 11; Ok 5]; [Err 3; Ok 7; Ok 9]] /\
+  all_finished g 3 = true /\
+  map (cellst g) [0; 1; 2] = [CFull (Ok 7); CEmpty; CFull (Ok 9)].
 Proof.
-  split; [|vm_compute; split; reflexivity].
+  split; [|vm_compute; repeat split; reflexivity].
   intros ty r. unfold ex_prog, ex_rank. destruct (r =? 2) eqn:E2.
   - destruct (ty =? 1); [exact I|]. cbn [bounded]. change (3 =? 2) with false. cbv iota.
     split; [lia|]. intros o. exact I.
